@@ -76,7 +76,7 @@ def instantiate(p, env, slashes=None):
     return F(instantiate(p[1], env, slashes), s, instantiate(p[3], env, slashes))
 
 
-def t_env(t, names, system, force_modifier=False, depths=(0, 0, 1, 1, 2), bar_inputs=False):
+def t_env(t, names, system, force_modifier=False, depths=(0, 0, 1, 1, 2, 2, 3), bar_inputs=False):
     env = {}
     for n in names:
         env[n] = gen_cat.t_cat(t, system, depth=t.pick(list(depths)), bar=bar_inputs and t.chance(40),
